@@ -68,7 +68,10 @@ def _thr_mask(t):
 def _mask_form(cfg):
     T, K, j, k = cfg["T"], cfg["K"], cfg["j"], cfg["k"]
     h = j + k + T + K + len(cfg["d"])
-    if 2 <= T <= len(_DOMAINS) and cfg["driver"] in ("model", "loader_multi", "loader_stack") and h % 4 == 0:
+    # only for the NORMALISED scores: there the planted candidate scores exactly 1 under any mask and every other candidate less
+    # (Cauchy-Schwarz), so "the planted candidate is reported" follows from the property.  The phase correlation of PCC is not a
+    # normalised score: under a mask of a few hundred voxels another rotation can legitimately score higher.
+    if 2 <= T <= len(_DOMAINS) and cfg["driver"] in ("model", "loader_multi", "loader_stack") and h % 4 == 0 and cfg["model"] in ("ZNCC", "NCC"):
         return "function"
     return "array" if h % 2 == 1 else "none"
 
